@@ -166,7 +166,7 @@ def run(ctx):
     plans = [dict(names=names2, inits=[[1, 0]], len=4)]    # behaviours that first delete n1 cover the empty start
     sims = []
     if thorough:
-        plans = [dict(names=names2, inits=inits2, len=5), dict(names=names3, inits=inits3, len=4)]
+        plans = [dict(names=names2, inits=[[1, 0]], len=5), dict(names=names3, inits=inits3, len=4)]
         sims = [dict(names=names3, inits=inits3, len=8, num=1500)]
     nontriv = 0
     total_cases = 0
